@@ -56,6 +56,29 @@ fn k1_composite_key_cmp_transitive_len2() {
   }
 }
 
+// the JSON form of a numeric key part (CompositeKeyPart::to_json, the real function on serde_json's real Number) reads back
+// through Value::as_f64 as the SAME bit pattern, for every finite f64: loop-free, full domain (C30: after_key sent back as after)
+#[kani::proof]
+fn k1_composite_part_json_roundtrip_finite() {
+  let bits: u64 = kani::any();
+  kani::assume(f64::from_bits(bits).is_finite());
+  let v = CompositeKeyPart::F64(bits).to_json();
+  let back = v.as_f64().map(|f| f.to_bits());
+  assert!(back == Some(bits));
+  kani::cover!(bits == 0x43E0_0000_0000_0000);     // 2^63: beyond every i64
+  std::mem::forget(v);
+}
+
+// ... and a part that is not a finite number has no numeric JSON form at all (it can never be confused with a bucket bound)
+#[kani::proof]
+fn k1_composite_part_json_nonfinite_is_null() {
+  let bits: u64 = kani::any();
+  kani::assume(!f64::from_bits(bits).is_finite());
+  let v = CompositeKeyPart::F64(bits).to_json();
+  assert!(v.is_null());
+  std::mem::forget(v);
+}
+
 // ---- K10: exact-mode percentiles never index out of bounds, for ANY requested percent (C16: aggregation configs never panic) ----
 fn percentile_harness(n: usize) {
   let vals: [f64; 3] = kani::any();
